@@ -391,16 +391,28 @@ pub fn generate(rng: &mut Rng, tier: Tier) -> Value {
         } else {
             None
         };
+        let mode = match rng.below(10) {
+            0..=5 => 0,
+            6 | 7 => *rng.pick(&[1u32, 2, 3, 7, 50, 256]),
+            _ => u32::MAX,
+        };
+        // module entries: half of them with top-level await before or after the body, so that the
+        // asynchronous module machinery (ExecuteAsyncModule, its promise plumbing) runs under the faults
+        let text = if mode == u32::MAX && raw.is_none() && rng.chance(1, 2) {
+            match rng.below(3) {
+                0 => format!("await null;\n{text}"),
+                1 => format!("{text}\n;await dflt; await {{then(r){{ r(1); }}}};"),
+                _ => format!("await 0;\n{text}\n;await Promise.resolve(d);"),
+            }
+        } else {
+            text
+        };
         entries.push(Entry {
             src: text,
             raw,
             reader,
             limits,
-            mode: match rng.below(10) {
-                0..=5 => 0,
-                6 | 7 => *rng.pick(&[1u32, 2, 3, 7, 50, 256]),
-                _ => u32::MAX,
-            },
+            mode,
             deny_compile: rng.chance(1, 10),
             buffer_cap: if rng.chance(1, 8) { *rng.pick(&[0u64, 1, 7, 8, 63, 1024]) } else { 0 },
             utf16,
@@ -635,7 +647,7 @@ pub const PROP: Prop = Prop {
     id: "C02",
     level: "exploration",
     runs_quick: 20_000,
-    runs_thorough: 200_000,
+    runs_thorough: 100_000,
     generate,
     execute,
     shrink,
@@ -647,4 +659,5 @@ pub const PROP: Prop = Prop {
         "a loop limit of at most 100000 is always set so that mutants cannot hang the worker",
     ],
     nondeterminism_is_violation: false,
+    hang_is_violation: false,
 };
